@@ -2318,6 +2318,12 @@ class NetSim(enginemod.Engine):
                 'LinuxAppEnvironment is given an absolute root (a relative '
                 'approot is not a supported configuration: create_spec '
                 'stores the owner path it is given)',
+                'a restarted service must not release an ip it acknowledged '
+                'to a request that is still registered and whose veth is '
+                'intact (exists, on br0, carries the request alias); when the '
+                'bridge had to be re-created during that start, or the veth '
+                'was gone, the service\'s recovery by destruction is left '
+                'open',
                 'a request whose latest reply is an error (after an injected '
                 'netdev/ipset failure) is no longer considered to have been '
                 'told an IP',
